@@ -1839,6 +1839,11 @@ where
         return Err(Error::InvalidInstances);
     }
 
+    // An empty batch contains no invalid proof.
+    if n == 0 {
+        return Ok(());
+    }
+
     let mut r_transcript = CircuitTranscript::init();
 
     let guards = vks
